@@ -37,6 +37,27 @@ def harness():
     return exe, False
 
 
+def asan_harness():
+    """Same harness under AddressSanitizer (no projection): for the long programs below."""
+    return common.build("resource_asan", ["resource/resource_harness.cpp", "vsched/vsched.cpp"],
+                        FLAGS + ["-fsanitize=address,undefined", "-fno-sanitize=nonnull-attribute"], REPO_SRC)
+
+
+def long_scripts(seed, count):
+    """Few threads, many pairs, mostly writers: dozens of requests go through the wait queue of ONE Resource, so that whatever
+    container holds the queue crosses its internal block boundaries (a std::deque node holds 32 entries)."""
+    rnd = random.Random("%s-long" % seed)
+    lines, cfgs = [], {}
+    for i in range(count):
+        progs = []
+        for t in range(3):
+            progs.append("".join(("W" if rnd.random() < 0.75 else "R") + rnd.choice("rg") for _ in range(rnd.randrange(14, 20))))
+        cfg = "n=3 mode=random prog=%s seed=%d stay=%d stayden=%d" % (":".join(progs), rnd.randrange(1, 2 ** 31), *rnd.choice([(1, 2), (1, 4), (3, 4)]))
+        lines += ["X l%d %s" % (i, cfg), "E"]
+        cfgs["l%d" % i] = cfg
+    return "\n".join(lines) + "\n", cfgs
+
+
 # ------------------------------------------------------------------------------------------
 # model checking
 # ------------------------------------------------------------------------------------------
@@ -251,6 +272,11 @@ def check(pid, tier, seed):
     ts = "\n".join((l.replace("X m", "X a", 1) + " accy=%d" % (500 + 700 * (k % 5))) if l.startswith("X m") else l for k, l in enumerate(ts.split("\n")))
     yruns.update(common.run_harness(races._race_build("resource_race", "resource/resource_harness.cpp", REPO_SRC), ts))
     ycfgs.update({"a" + x[1:]: c + " accy=on" for x, c in tcf.items()})
+
+    if pid == "C01":   # exclusion is also what breaks when the queue's own memory is mishandled: long programs under ASan
+        ls, lcf = long_scripts(seed, {"quick": 60, "thorough": 3000}[tier])
+        yruns.update(common.run_harness(asan_harness(), ls))
+        ycfgs.update(lcf)
 
     execs = {}
     src = {}
